@@ -25,7 +25,7 @@ def run(facts, tier):
                   "text": "every stream reader tests the stream state after its last read on every returning path"})
     o = validators.obligations(facts)
     obs += o
-    rules.append({"rule": "a3 validators", "instances": len(o), "min": 160,
+    rules.append({"rule": "a3 validators", "instances": len(o), "min": 283,
                   "text": "every reader keeps the validations of image fields (check_* calls and inline throw guards) it performs on the reviewed tree"})
     o = reader_extra.registration_order(facts)
     obs += o
